@@ -150,7 +150,7 @@ def plan_insertions(src, blocks):
                 if d == 'before':
                     ins.append((line_start(text, a), 'lines', b))
                 elif d == 'after':
-                    ins.append((src.stmt_end(a), 'lines', b))
+                    ins.append((src.stmt_end(line_start(text, a)), 'lines', b))
                 else:
                     ins.append((a, 'inline', b))
         elif d == 'body-start':
